@@ -43,7 +43,7 @@ func (c06) RealStub() map[string]string {
 }
 func (c06) Runs(t Tier) int {
 	if t == Thorough {
-		return 8000
+		return 20000
 	}
 	return 400
 }
